@@ -1,4 +1,5 @@
 import PigeonVerif.Model.Protocol
+import PigeonVerif.Model.MidProtocol
 open PV PV.Protocol
 
 partial def loop (h : IO.FS.Stream) (out : IO.FS.Stream) (tab : Array CaseRange) : IO Unit := do
@@ -10,6 +11,11 @@ partial def loop (h : IO.FS.Stream) (out : IO.FS.Stream) (tab : Array CaseRange)
     match parseLine caseRanges line with
     | .ok t => loop h out t.toArray
     | .error e => out.putStrLn s!"res 0 error header: {e}"; loop h out tab
+  else if line.startsWith "mid " then
+    match parseLine MidProtocol.midCase line with
+    | .ok c => out.putStrLn (MidProtocol.runMid c)
+    | .error e => out.putStrLn s!"midres 0 error {e}"
+    loop h out tab
   else
     match parseLine case_ line with
     | .ok c => out.putStrLn (runCase c (toLower tab))
